@@ -8,7 +8,7 @@
    classes of odl/operator/operator.py and of five leaf classes of default_ops.py
    are REGENERATED from the source into Gen/C03Bodies.v on every run
    (translate/call_bodies.py) and interpreted by C03/Model.v. *)
-From Coq Require Import ZArith QArith Reals List Bool Arith.
+From Coq Require Import ZArith QArith Reals List Bool Arith Lia.
 From Verif Require Import Base.Num Base.Vec C03.Syntax Gen.C03Bodies C03.Poison C03.Model C03.Heap
   C03.Protocol C03.Classes C03.Proofs C03.Corr C03.Refuted.
 Import ListNotations.
@@ -92,41 +92,49 @@ Print Assumptions lincomb_all_regimes_all_aliases.
    signatures a class has, if the slot(s) it implements meet the raw contract with
    denotation F, then BOTH public call modes meet the public contract with F. *)
 Theorem default_bridges_correct :
-  forall (junk : nat -> nat -> option R) (k : kind) (dom ran : space) (ro : ro_t) (F : list R -> list R)
+  forall (junk : nat -> nat -> option R) (k : kind) (dom ran : space) (ro : ro_t) (c : scr_t) (F : list R -> list R)
          (raw_oop : @pyval (option R) -> @M (option R) (@pyval (option R)))
          (raw_ip : @pyval (option R) -> @pyval (option R) -> @M (option R) (@pyval (option R))),
   (k = KOop \/ k = KBoth -> raw_oop_vec raw_oop dom ran ro F) ->
-  (k = KIp \/ k = KBoth -> raw_ip_vec raw_ip dom ran ro F) ->
+  (k = KIp \/ k = KBoth -> raw_ip_vec raw_ip dom ran ro c F) ->
+  (k = KIp -> c = []) ->
   let '(ip, oop) := slots junk k (RSp ran) raw_oop raw_ip in
-  vec_ok {| o_dom := dom; o_ran := RSp ran; o_call := public_call junk dom (RSp ran) ip oop |} ran ro F.
+  vec_ok {| o_dom := dom; o_ran := RSp ran; o_call := public_call junk dom (RSp ran) ip oop |} ran ro c F.
 Proof. exact slots_vec. Qed.
 Print Assumptions default_bridges_correct.
 
 (* ------------------------------------------------------------------ *)
-(* T1  THE PROPERTY FOR ALL OPERATOR TREES.  [den ro o dom ran F] says: o is a tree,
-   of any depth, built from the nine expression classes (fresh temporaries), the five
-   translated leaf classes and primitive leaves of any of the three dispatch kinds
-   (incl. leaves returning their argument itself), well-formed as the __init__
+(* T1  THE PROPERTY FOR ALL OPERATOR TREES.  [den ro o dom ran c F] says: o is a tree,
+   of any depth, built from the nine expression classes (each with fresh OR
+   user-supplied temporaries tmp= / tmp_ran=, listed in c and pairwise distinct), the
+   five translated leaf classes and primitive leaves of any of the three dispatch
+   kinds (incl. leaves returning their argument itself), well-formed as the __init__
    methods demand, and F is the real function it denotes.  Then for EVERY store, every
    NaN-free x in the domain, every y in the range with ARBITRARY contents (NaN
-   included), every content of uninitialised memory [junk]:
+   included), every content of uninitialised memory [junk] and of the temporaries:
      op(x)        returns an element of the range holding F(x); it is a new object or
                   x itself; no pre-existing object is modified;
      op(x, out=y) returns the object y, y holds the same F(x), and no pre-existing
-                  object other than y is modified (so x is untouched in both calls). *)
+                  object other than y and the user-supplied temporaries is modified
+                  (so x is untouched in both calls).
+   [scr_ok c ro s x y]: the temporaries exist in their spaces and are neither x, nor y,
+   nor an element owned read-only by an operator (the refutations below show that each
+   of these side conditions is necessary). *)
 Theorem call_protocol_all_trees :
-  forall (junk : nat -> nat -> option R) (ro : ro_t) (o : @op (option R)) (dom ran : space) (F : list R -> list R),
-  den ro o dom ran F ->
+  forall (junk : nat -> nat -> option R) (ro : ro_t) (o : @op (option R)) (dom ran : space) (c : scr_t)
+         (F : list R -> list R),
+  den ro o dom ran c F ->
   forall (s : @store (option R)) (x y : nat) (dx : list R) (dy : list (option R)),
     wf_store s -> good ro s ->
     rd s x = Some (dom, cl dx) -> rd s y = Some (ran, dy) -> x <> y -> ~ In y (ro_ids ro) ->
+    scr_ok c ro s x y ->
     (exists r s1, call junk o (VElem x) None s = Ok (VElem r) s1 /\
         rd s1 r = Some (ran, cl (F dx)) /\
         (forall i, (i < length s)%nat -> ~ In i [] -> rd s1 i = rd s i) /\
         (r = x \/ (length s <= r)%nat)) /\
     (exists s2, call junk o (VElem x) (Some (VElem y)) s = Ok (VElem y) s2 /\
         rd s2 y = Some (ran, cl (F dx)) /\
-        (forall i, (i < length s)%nat -> ~ In i [y] -> rd s2 i = rd s i)).
+        (forall i, (i < length s)%nat -> ~ In i (y :: scr_ids c) -> rd s2 i = rd s i)).
 Proof. exact protocol_all_trees. Qed.
 Print Assumptions call_protocol_all_trees.
 
@@ -150,7 +158,7 @@ Print Assumptions functional_protocol_all_trees.
    the public contract (both modes) with its denotation. *)
 Theorem contract_preservation :
   forall (junk : nat -> nat -> option R) (ro : ro_t),
-  (forall o dom ran F, den ro o dom ran F -> o_dom (sem junk o) = dom /\ vec_ok (sem junk o) ran ro F) /\
+  (forall o dom ran c F, den ro o dom ran c F -> o_dom (sem junk o) = dom /\ vec_ok (sem junk o) ran ro c F) /\
   (forall o dom g, dens ro o dom g -> o_dom (sem junk o) = dom /\ sc_ok (sem junk o) ro g).
 Proof. exact den_dens_ok. Qed.
 Print Assumptions contract_preservation.
@@ -169,17 +177,21 @@ Example a_tree_with_a_denotation :
   let absleaf := Lf {| lf_kind := KBoth; lf_fun := PAbs; lf_alias := false; lf_quirk := QNone |} sp (RSp sp) in
   let mat := Lf {| lf_kind := KIp; lf_fun := PMat (map cl [[1%R; 0%R]; [1%R; 1%R]]); lf_alias := false;
                    lf_quirk := QNone |} sp (RSp sp) in
+  (* tmp_ran = object 7 for the sum, tmp = object 8 for the composition *)
   exists F, den ro
-    (Op cls_OperatorSum sp (RSp sp) [] [] [None; None]
-       [Op cls_OperatorLeftScalarMult sp (RSp sp) [Some 2%R] [] [] [Op cls_OperatorComp sp (RSp sp) [] [] [None] [mat; absleaf]];
-        Op cls_MultiplyOperator sp (RSp sp) [] [5%nat] [] []]) sp sp F.
+    (Op cls_OperatorSum sp (RSp sp) [] [] [Some 7%nat; None]
+       [Op cls_OperatorLeftScalarMult sp (RSp sp) [Some 2%R] [] []
+          [Op cls_OperatorComp sp (RSp sp) [] [] [Some 8%nat] [mat; absleaf]];
+        Op cls_MultiplyOperator sp (RSp sp) [] [5%nat] [] []]) sp sp [(7%nat, sp); (8%nat, sp)] F.
 Proof.
   cbv zeta. eexists.
-  apply D_Sum.
-  - apply D_LScal. eapply D_Comp.
+  apply (D_Sum _ _ _ _ _ [(8%nat, (2, 0)%nat)] [] (Some 7%nat) None).
+  - apply D_LScal. apply (D_Comp _ _ _ _ _ _ [] [] (Some 8%nat)).
     + apply D_Leaf. apply (pmat_clean (2, 0)%nat (2, 0)%nat [[1%R; 0%R]; [1%R; 1%R]]). reflexivity.
     + apply D_Leaf. apply pabs_clean.
+    + repeat constructor; cbn; intuition lia.
   - apply D_Multiply. left. reflexivity.
+  - repeat constructor; cbn; intuition lia.
 Qed.
 Example a_functional_tree_with_a_denotation :
   let sp := (2, 0)%nat in
